@@ -15,12 +15,13 @@ var (
 	verifOnce sync.Once
 	verifMod  *ModuleAuthJWT
 	verifCond condition.Condition
+	verifFalse condition.Condition
 	verifKeys = map[string][]keyProvider{}
 )
 
 // VerifJWT runs authJWTHandler (C51) for a request of product "p" whose single rule uses the JWK set in keyFile.
 // Returns whether the request goes on and the status of the rejection response (0 when it goes on).
-func VerifJWT(keyFile string, auth string, hasAuth bool) (bool, int, string) {
+func VerifJWT(route int, keyFile string, auth string, hasAuth bool) (bool, int, string) {
 	verifOnce.Do(func() {
 		verifMod = NewModuleAuthJWT()
 		c, err := condition.Build("default_t()")
@@ -28,6 +29,9 @@ func VerifJWT(keyFile string, auth string, hasAuth bool) (bool, int, string) {
 			panic(err)
 		}
 		verifCond = c
+		if verifFalse, err = condition.Build("!default_t()"); err != nil {
+			panic(err)
+		}
 	})
 	keys, ok := verifKeys[keyFile]
 	if !ok {
@@ -38,8 +42,17 @@ func VerifJWT(keyFile string, auth string, hasAuth bool) (bool, int, string) {
 		}
 		verifKeys[keyFile] = keys
 	}
-	rules := RuleList{AuthJWTRule{Cond: verifCond, Keys: keys, Realm: "verif"}}
-	verifMod.ruleTable.Update(AuthJWTConf{Version: "v", Config: ProductRules{"p": &rules}})
+	// route 0: [rule with a false condition (and no keys); the rule under test]; 1: other product only; 2: false rule only
+	decoy := AuthJWTRule{Cond: verifFalse, Keys: nil, Realm: "decoy"}
+	rules := RuleList{decoy, AuthJWTRule{Cond: verifCond, Keys: keys, Realm: "verif"}}
+	product := "p"
+	switch route {
+	case 1:
+		product = "other"
+	case 2:
+		rules = RuleList{decoy}
+	}
+	verifMod.ruleTable.Update(AuthJWTConf{Version: "v", Config: ProductRules{product: &rules}})
 	hreq := &bfe_http.Request{Method: "GET", Header: make(bfe_http.Header)}
 	if hasAuth {
 		hreq.Header.Set("Authorization", auth)
